@@ -511,6 +511,9 @@ impl serde::ser::Error for SerErr {
 struct StringOnly<'a> {
     sink: &'a mut SimFmtSink,
     strings: &'a mut u32,
+    /// bit 0: a binary format (`is_human_readable() == false`); bit 1: `collect_str` as serde's default
+    /// does it (`to_string()` first, then `serialize_str`) instead of streaming `Display` into the sink.
+    mode: usize,
 }
 
 macro_rules! refuse {
@@ -544,8 +547,15 @@ impl<'a> serde::Serializer for StringOnly<'a> {
     }
 
     fn collect_str<T: ?Sized + Display>(self, value: &T) -> Result<(), SerErr> {
+        if self.mode & 2 != 0 {
+            return self.serialize_str(&value.to_string());
+        }
         *self.strings += 1;
         write!(self.sink, "{}", value).map_err(|_| SerErr("sink failed".to_owned()))
+    }
+
+    fn is_human_readable(&self) -> bool {
+        self.mode & 1 == 0
     }
 
     fn serialize_some<T: ?Sized + Serialize>(self, _: &T) -> Result<(), SerErr> {
@@ -936,7 +946,7 @@ where
                     .collect();
                 let mut sink = SimFmtSink::new(&faults);
                 let mut strings = 0u32;
-                let r = guarded(|| p.serialize(StringOnly { sink: &mut sink, strings: &mut strings }).is_ok());
+                let r = guarded(|| p.serialize(StringOnly { sink: &mut sink, strings: &mut strings, mode: sc.w_chunk }).is_ok());
                 fmt_fired = sink.fired.clone();
                 stats.add("io.fmt_write_str_calls", sink.calls);
                 match r {
